@@ -267,6 +267,29 @@ func genStorageGeneral(g *gen) {
 			g.emit("S delgroup %s %s -", pickCluster(), pickGroup())
 			fetchAll()
 		case x < 82:
+			if g.chance(1, 3) {
+				// directed: the group commits to two topics, the topic committed to LAST is removed from the group, and
+				// the group's next commits go to that same topic again — they must start a fresh history that is served
+				c, gr := pickCluster(), pickGroup()
+				t, u := pickTopic(), pickTopic()
+				for _, x := range []string{t, u} {
+					if counts[c+x] == 0 {
+						counts[c+x] = 1 + g.intn(3)
+					}
+					g.emit("S broker %s %s 0 %d %d 1", c, x, counts[c+x], 500+g.intn(3)*100)
+				}
+				base := int64(20 + g.intn(5))
+				g.emit("S commit %s %s %s 0 %d %d %d", c, gr, t, 400, base, -900)
+				g.emit("S commit %s %s %s 0 %d %d %d", c, gr, u, 410, base+1, -800)
+				g.emit("S commit %s %s %s 0 %d %d %d", c, gr, t, 420, base+2, -700)
+				g.emit("S delgroup %s %s %s", c, gr, t)
+				g.emit("S commit %s %s %s 0 %d %d %d", c, gr, t, 430, base+3, -600)
+				g.emit("S consumer %s %s", c, gr)
+				g.emit("S commit %s %s %s 0 %d %d %d", c, gr, t, 440, base+4, -500)
+				g.emit("S consumer %s %s", c, gr)
+				fetchAll()
+				break
+			}
 			g.emit("S delgroup %s %s %s", pickCluster(), pickGroup(), pickTopic())
 			fetchAll()
 		case x < 85:
@@ -653,7 +676,7 @@ func (s *storageRunner) step(r *runner, line string) {
 				s.ev.AgeCache(-wait)
 				s.evRef = s.evRef.Add(wait)
 				s.app.StorageChannel <- nil
-				go s.ev.GetConsumerStatus(req)
+				go s.ev.Request(req)
 				time.Sleep(wait - time.Since(t))
 				now = time.Now().Unix()
 				before = atomic.LoadInt64(&s.served)
@@ -669,11 +692,16 @@ func (s *storageRunner) step(r *runner, line string) {
 				}
 				s.ev.AgeCache(-wait)
 				s.evRef = s.evRef.Add(wait)
-				req2 := &protocol.EvaluatorRequest{Cluster: req.Cluster, Group: req.Group, ShowAll: req.ShowAll, Reply: make(chan *protocol.ConsumerGroupStatus, 1)}
+				// the second request may want the other view (all partitions / problems only): each gets the view it asked for
+				show2 := req.ShowAll
+				if len(f) > 5 {
+					show2 = f[5] == "1"
+				}
+				req2 := &protocol.EvaluatorRequest{Cluster: req.Cluster, Group: req.Group, ShowAll: show2, Reply: make(chan *protocol.ConsumerGroupStatus, 1)}
 				s.app.StorageChannel <- nil
-				go s.ev.GetConsumerStatus(req)
+				go s.ev.Request(req)
 				time.Sleep(100 * time.Millisecond)
-				go s.ev.GetConsumerStatus(req2)
+				go s.ev.Request(req2)
 				time.Sleep(wait - time.Since(t))
 				now = time.Now().Unix()
 				before = atomic.LoadInt64(&s.served)
@@ -681,7 +709,7 @@ func (s *storageRunner) step(r *runner, line string) {
 				st2 := <-req2.Reply
 				dupVerdict = " second=" + strings.ReplaceAll(renderGroupStatus(st2), " ", "~")
 			} else {
-				s.ev.GetConsumerStatus(req)
+				s.ev.Request(req)
 			}
 			st := <-req.Reply
 			ticked = time.Now().Unix() != now
@@ -703,7 +731,11 @@ func (s *storageRunner) step(r *runner, line string) {
 			res += " tick"
 		}
 		if dup {
-			r.resolve("S cqdup %d %s %s %s", now, f[2], f[3], f[4])
+			show2 := f[4]
+			if len(f) > 5 {
+				show2 = f[5]
+			}
+			r.resolve("S cqdup %d %s %s %s %s", now, f[2], f[3], f[4], show2)
 		} else {
 			r.resolve("S cq %d %s %s %s", now, f[2], f[3], f[4])
 		}
@@ -782,7 +814,7 @@ func (s *storageRunner) step(r *runner, line string) {
 				}(q)
 			}
 			close(start)
-			answered, named, extra := 0, "ok", 0
+			answered, named, extra, view := 0, "ok", 0, "ok"
 			deadline := time.Now().Add(5 * time.Second)
 			for _, q := range reqs {
 				select {
@@ -791,6 +823,19 @@ func (s *storageRunner) step(r *runner, line string) {
 					if st == nil || st.Cluster != q.Cluster || st.Group != q.Group {
 						named = "wrong"
 					}
+					// … and it is the view THIS request asked for: all partitions, or only those that are not OK
+					if st != nil && st.Status != protocol.StatusNotFound {
+						if q.ShowAll && len(st.Partitions) != st.TotalPartitions {
+							view = "wrong"
+						}
+						if !q.ShowAll {
+							for _, p := range st.Partitions {
+								if p.Status <= protocol.StatusOK {
+									view = "wrong"
+								}
+							}
+						}
+					}
 				case <-time.After(time.Until(deadline)):
 				}
 			}
@@ -798,7 +843,7 @@ func (s *storageRunner) step(r *runner, line string) {
 			for _, q := range reqs {
 				extra += len(q.Reply)
 			}
-			return fmt.Sprintf("burst=%d/%d named=%s extra=%d", answered, n, named, extra)
+			return fmt.Sprintf("burst=%d/%d named=%s extra=%d view=%s", answered, n, named, extra, view)
 		})
 		r.reply("%s", res)
 	case "consumer":
